@@ -134,7 +134,10 @@ impl Parser {
                 }
             }
 
-            let cloned = type_at_idx.clone().into_owned();
+            // the names are new locals of this function, also when the element is a captured variable
+            // (`[a, b] = [b, a]` inside a closure): they must not inherit the captured-variable marker, or the
+            // capture analysis takes the read of `b` on the right for a read of the local declared here
+            let cloned = type_at_idx.get_type_recursively().clone();
             ident
                 .link_force_no_inherit(input.user_data(), Cow::Owned(cloned))
                 .to_err_vec()?;
